@@ -108,7 +108,10 @@ def measure_of(kind, verts):
     d = G.DIM[kind]
     if len(verts[0]) != d:
         return None
-    v, _ = X.integrate_cell(ONE[d], kind, [X.frv(x) for x in verts])
+    try:
+        v, _ = X.integrate_cell(ONE[d], kind, [X.frv(x) for x in verts])
+    except StopIteration:   # rv.exact: identically vanishing Jacobian (all vertices coincide / collinear)
+        return None
     return v
 
 
@@ -320,3 +323,43 @@ def coarse_coordinates(p, bits=8):
 
 def rebuild(cls, p, t, **kw):
     return cls(np.array(p, dtype=float), np.array(t), **kw)
+
+
+def _perm_parity(seq):
+    """Parity (+1/-1) of the permutation that sorts `seq` (distinct entries)."""
+    seq = list(seq)
+    sign = 1
+    for i in range(len(seq)):
+        for j in range(i + 1, len(seq)):
+            if seq[i] > seq[j]:
+                sign = -sign
+    return sign
+
+
+def consistently_oriented(st):
+    """True iff, after normalising every cell to positive orientation, the two cells of every interior facet
+    induce opposite orientations on it (tri/tet/quad): the cells lie on opposite sides of each shared facet,
+    i.e. the mesh is not folded over itself.  Facets with more than two cells: False."""
+    t = st.t
+    induced = {}
+    for c in range(st.nt):
+        col = [int(v) for v in t[:, c]]
+        if st.kind == "quad":
+            s = quad_signed(st.ctuple(c))
+        else:
+            s = simplex_signed(st.ctuple(c))
+        if s == 0:
+            return False
+        sc = 1 if s > 0 else -1
+        if st.kind == "quad":
+            for i in range(4):
+                a, b = col[i], col[(i + 1) % 4]
+                induced.setdefault((min(a, b), max(a, b)), []).append(sc * (1 if a < b else -1))
+        else:
+            for i in range(len(col)):
+                rest = col[:i] + col[i + 1:]
+                induced.setdefault(tuple(sorted(rest)), []).append(sc * (-1) ** i * _perm_parity(rest))
+    for v in induced.values():
+        if len(v) > 2 or (len(v) == 2 and v[0] == v[1]):
+            return False
+    return True
